@@ -100,6 +100,11 @@ def cases(rng, quick):
     add(lambda i: g.mcall(g.host(), 'hm', i.e(c(1)), b=i.e(c(2)), a=i.e(c(3))))
     add(lambda i: g.safemcall(g.host(), 'hm', i.e(c(1)), i.e(c(2))))
     add(lambda i: g.mcall(g.host(), 'hm', note=i.e(c(1))))
+    # accumulate() over a lazy input, handed out total by total: nothing is pulled before the first total is asked for
+    for d_ in ([3, 1, 2], [], [5]):
+        for k in (0, 1, 2, 5):
+            add(lambda i, k=k: g.mcall(g.mcall(g.mcall(i.e(X), 'select', i.l(X)), 'accumulate', g.bn('+', i.l(g.var('1')), g.var('2'))), 'take', c(k)), d_, 'lazy-accumulate')
+            add(lambda i, k=k: g.mcall(g.mcall(g.mcall(i.e(X), 'select', i.l(X)), 'accumulate', g.bn('+', i.l(g.var('1')), g.var('2')), i.e(c(10))), 'limit', c(k)), d_, 'lazy-accumulate')
     # generate() handed out element by element: nothing runs for elements nobody asks for
     for k in (0, 1, 2, 3):
         add(lambda i, k=k: g.mcall(g.call('generate', i.e(c(0)), g.bn('<', i.l(X), c(5)), g.bn('+', i.l(X), c(1))), 'take', c(k)), note='lazy-generate')
